@@ -127,7 +127,13 @@ def run_property(prop, tier, replay=None):
     nontrivial = set()
 
     # ---- design runs: TLC on the specification itself -------------------------------------------
-    for d in P.get("design", lambda c: [])(ctx):
+    # development aids (never used by the registered commands): VERIF_SKIP_DESIGN=1 skips the TLC design runs,
+    # VERIF_ONLY=<regex> keeps only the scenario groups whose name matches; both imply "no evidence"
+    dev_only = os.environ.get("VERIF_ONLY")
+    dev_skip_design = bool(os.environ.get("VERIF_SKIP_DESIGN"))
+    if dev_only or dev_skip_design:
+        os.environ["VERIF_NO_EVIDENCE"] = "1"
+    for d in ([] if dev_skip_design else P.get("design", lambda c: [])(ctx)):
         rc, out, st = vlib.run_tlc(d["module"], d["cfg"], os.path.join(workdir, "meta-" + d["cfg"]),
                                    workers=d.get("workers", 8), xmx=d.get("xmx", "8g"), timeout=d.get("timeout", 1500),
                                    extra=d.get("extra", ()), env=d.get("env"))
@@ -166,6 +172,11 @@ def run_property(prop, tier, replay=None):
             built.add(variant.name)
             log("built harness variant %s in %.1fs" % (variant.name, dt))
         groups = ph["groups"]
+        if dev_only:
+            import re
+            groups = [g for g in groups if re.search(dev_only, g["name"])]
+            if not groups:
+                continue
         tm, tc = ph.get("trace_module", "TraceBytes"), ph.get("trace_cfg", "TraceBytes.cfg")
         verdicts, summary = vlib.run_groups(ph["tag"], groups, variant, workdir, tm, tc, tlc_timeout=ph.get("tlc_timeout", 2400))
         total_groups += len(groups)
